@@ -603,7 +603,7 @@ impl DelegateBuilder {
         // TODO: might want to detect case of a group with no captures
         //  inside, so we can run find() instead of captures()
 
-        self.min_size += info.min_size;
+        self.min_size = self.min_size.saturating_add(info.min_size);
         self.const_size &= info.const_size;
         if self.start_group.is_none() {
             self.start_group = Some(info.start_group);
